@@ -243,6 +243,9 @@ StepFeat ==
     \cup (IF f.f \in LoopFrames /\ c.c \in {"break", "continue"} /\ LoopInTryInLoop(Tail(k)) THEN {"brk_loop_in_try_in_loop"} ELSE {})
     \cup (IF f.f \in LoopFrames /\ c.c \in {"break", "continue"} /\ (\E i \in 1..Len(FnFrames(Tail(k))) : FnFrames(Tail(k))[i].f = "catch")
            THEN {"brk_in_catch_body"} ELSE {})
+    \cup (IF f.f \in LoopFrames /\ c.c \in {"break", "continue"} /\ (\E i \in 1..Len(FnFrames(Tail(k))) : FnFrames(Tail(k))[i].f = "fin")
+           THEN {"brk_in_finally_body"} ELSE {})
+    \cup (IF f.f = "apply" /\ c.c = "normal" /\ f.isnew /\ f.fv.t = "fun" /\ (heap[f.fv.a].gen \/ heap[f.fv.a].arrow) THEN {"new_nonconstructor"} ELSE {})
     \* suspension points (the VM state is saved and restored around every order)
     \cup (IF f.f = "order" /\ c.c = "normal" THEN
              (IF \E i \in 1..Len(k) : k[i].f = "fin" /\ k[i].pend.c # "normal" THEN {"suspend_pending_completion"} ELSE {})
